@@ -103,10 +103,7 @@ def run(prog: Program, rep, thorough: bool) -> None:
                     if entry is ga:
                         r, st = ev.call_value(ga, [D, da, wa, S('m')], self_val=sight, st=st)
                     else:
-                        td = prog.cls(C.M_TD, 'TrajectoryData')
-                        rowf = {f: NONE for f in prog.namedtuple_fields(td)}
-                        rowf.update({'distance': D, 'drop_adj': da, 'windage_adj': wa})
-                        row = ev.new_inst(st, td, rowf)
+                        row = C.mk_row(ev, st, prog, 'row_', {'distance': D, 'drop_adj': da, 'windage_adj': wa})
                         r, st = ev.call_value(gta, [row, S('m')], self_val=sight, st=st)
                 except Undecided as exc:
                     raise AnalysisError(f'{entry.qualname} ({fp}, clicks in {unit}): {exc}') from exc
